@@ -255,6 +255,23 @@ fn main() {
                                 "detail": {"case": case, "text": text2, "token": {"idx": t.idx, "text": kw, "offset": end2}, "expected": exp, "got": got}}));
                         }
                     }
+                    // ---- C18: after `record.` exactly the fields common to all variants of the record's type
+                    // (GleamGen's own type: T(a, b) / V(a, b) - fields a and b)
+                    if t.r == "field" {
+                        if let Some(dot) = prog.toks.iter().find(|d| d.idx + 1 == t.idx && d.t == ".") {
+                            let items = a.completions(FilePos::new(M1, (dot.end as u32).into()), Some('.')).unwrap().unwrap_or_default();
+                            queries += 1;
+                            let mut got: Vec<String> = items.iter().map(|i| format!("{}:{:?}", i.label, i.kind)).collect();
+                            got.sort();
+                            let exp: Vec<String> = case["fields"].as_array().map(|a| a.iter().map(|x| format!("{}:Field", x.as_str().unwrap())).collect()).unwrap_or_default();
+                            if got != exp {
+                                local.push(json!({"kind": "mismatch", "prop": "C18",
+                                    "features": {"what": "record fields", "ctx": t.ctx.join("/"), "inner": t.ctx.last().cloned().unwrap_or_default(),
+                                                 "missing": exp.iter().filter(|e| !got.contains(e)).collect::<Vec<_>>(), "extra": got.iter().filter(|g| !exp.contains(g)).collect::<Vec<_>>()},
+                                    "detail": {"case": case, "text": prog.text, "token": {"idx": t.idx, "text": t.t, "offset": dot.end}, "expected": exp, "got": got}}));
+                            }
+                        }
+                    }
                     // ---- C18: after `module.` exactly the public functions and constructors of that module
                     if t.r == "modref" {
                         if let Some(dot) = prog.toks.iter().find(|d| d.idx == t.idx + 1 && d.t == ".") {
